@@ -9,6 +9,7 @@
 //   o<n>     then write n pattern bytes to stdout   e<n>  write n pattern bytes to stderr
 //   f<0|1>   1: serve stderr before stdout (default stdout first); each stream is closed as soon as it is complete
 //   h<0|1>   1: after the report is written, pause until killed (no stream traffic)
+//   w<ms>    wait that many milliseconds after the report before any stream traffic
 //
 // Report (length prefixed, binary safe):
 //   "A <argc>\n" then per argument "<len>\n<bytes>\n"; "E <n>\n" then per environment string "<len>\n<bytes>\n";
@@ -58,14 +59,14 @@ int main(int argc, char** argv) {
     if (fstat(1, &st) == 0 && S_ISFIFO(st.st_mode)) { std::string r = report(argc, argv); r += "I -1 0\nD 0\n"; writeAll(1, r.data(), r.size()); }
     _exit(77);
   }
-  long code = 0, rd = 0, no = 0, ne = 0, eo = 0, ee = 0, errFirst = 0, hang = 0;
+  long code = 0, rd = 0, no = 0, ne = 0, eo = 0, ee = 0, errFirst = 0, hang = 0, waitMs = 0;
   if (argc >= 3) {
     const char* p = argv[2];
     while (*p) {
       char k = *p++;
       char* end; long v = strtol(p, &end, 10); p = end;
       switch (k) { case 'x': code = v; break; case 'i': rd = v; break; case 'o': no = v; break; case 'e': ne = v; break;
-                   case 'O': eo = v; break; case 'E': ee = v; break; case 'f': errFirst = v; break; case 'h': hang = v; break; default: break; }
+                   case 'O': eo = v; break; case 'E': ee = v; break; case 'f': errFirst = v; break; case 'h': hang = v; break; case 'w': waitMs = v; break; default: break; }
       if (*p == ',') ++p; else if (*p) break;
     }
   }
@@ -89,6 +90,7 @@ int main(int argc, char** argv) {
     if (writeAll(rf, r.data(), r.size())) _exit(79);
   }
   if (hang) { for (;;) pause(); }
+  if (waitMs > 0) usleep((useconds_t)waitMs * 1000);
   int errors = 0;
   for (int pass = 0; pass < 2; ++pass) {
     bool isErr = (pass == 0) == (errFirst != 0);
